@@ -159,6 +159,10 @@ class Engine:
         if len(options) == 1:
             self.choices[name] = 0
             return options[0]
+        if name in PRESET:
+            # the shape fixes this choice (a deeper exploration partitioned into one shape per first step)
+            self.choices[name] = PRESET[name]
+            return options[PRESET[name]]
         if self.mode == "fork":
             for i in range(len(options) - 1):
                 if self._fork():
@@ -586,6 +590,22 @@ def Ite(c, a, b):
     if isinstance(c, SymBool):
         return _mk(z3.If(c.e, _z(a), _z(b)))
     return a if c else b
+
+
+PRESET = {}
+
+
+def with_preset(fn, preset):
+    """fn with some enumerated choices fixed by name (index into the options)."""
+    def wrapped(eng, **params):
+        PRESET.clear()
+        PRESET.update(preset)
+        try:
+            return fn(eng, **params)
+        finally:
+            PRESET.clear()
+    wrapped.__name__ = getattr(fn, "__name__", "fn")
+    return wrapped
 
 
 def is_sym(x):
